@@ -241,7 +241,8 @@ Definition op_imports_ok (o : op) : bool :=
 Definition imports_ok (s : spec) : bool := forallb op_imports_ok s.
 
 (* Raised c st r : exception of class c with .status_code = st; r = (.response is the response object) *)
-Inductive outcome := Returned | Raised (c : cls) (st : N) (resp_carried : bool) | ImportFails.
+(* Crashed: the `raise X(...)` statement itself failed with TypeError because the name X denotes something else *)
+Inductive outcome := Returned | Raised (c : cls) (st : N) (resp_carried : bool) | ImportFails | Crashed.
 
 Definition call (k : kind) (s : spec) (o : op) (st : N) : outcome :=
   if negb (imports_ok s) then ImportFails
@@ -255,6 +256,32 @@ Definition call (k : kind) (s : spec) (o : op) (st : N) : outcome :=
            | ARaiseFallback => Raised (Named (range_class handler_ranges handler_fallback_raises st)) st true
            end
        end.
+
+(* ---- the import namespace of the endpoints module.  The module imports, BY NAME, the exception classes it raises
+   (`from <core> import NotFoundError`, `from <core>.exceptions import ClientError, HTTPError, ServerError`) and the model
+   classes of its operations' 2xx bodies (`from ..models.not_found_error import NotFoundError`); the model imports are
+   rendered last, so a model class with the same name SHADOWS the exception class: `raise NotFoundError(response=response)`
+   then calls the dataclass constructor and fails with TypeError.  [ms] = the model class names imported by the module.
+   The bundled transport raises inside core/http_transport.py, where nothing is shadowed. *)
+Definition call_ns (k : kind) (s : spec) (ms : list str) (o : op) (st : N) : outcome :=
+  match transport k st with
+  | Some _ => call k s o st
+  | None => match call k s o st with
+            | Raised c st' r => if mem_str (cls_name c) ms then Crashed else Raised c st' r
+            | x => x
+            end
+  end.
+(* F06e: the name raised by the handler for this status denotes the exception class (no model shadows it) *)
+Definition guard_F06e (k : kind) (s : spec) (ms : list str) (o : op) (st : N) : bool :=
+  match transport k st with
+  | Some _ => true
+  | None => match call k s o st with Raised c _ _ => negb (mem_str (cls_name c) ms) | _ => true end
+  end.
+(* spec-level side condition: no imported model class is named like an exception class the module can raise *)
+Definition raisable_names (s : spec) : list str :=
+  handler_fallback_raises :: handler_declared_other_raises :: map (fun x => snd x) handler_ranges
+  ++ flat_map (fun o => flat_map (fun c => match snd c with CAlias m => [alias_name m] | _ => [] end) (cases o)) s.
+Definition no_shadowing (s : spec) (ms : list str) : bool := negb (existsb (fun n => mem_str n ms) (raisable_names s)).
 
 (* ------------------------------------------------------------------ the property (from its text) *)
 Definition s_HTTPError : str := [72;84;84;80;69;114;114;111;114].
